@@ -778,7 +778,7 @@ func execHistory(id string, c *Case) (nreq int) {
 			continue
 		}
 		if hit != nil {
-			run.Count("corrupt:" + c.Cor.Field + ":" + hit.Q.M + ":" + hit.Q.EP.Kind)
+			run.Count("corrupt:" + c.Cor.Field + ":" + o.Kind + ":" + hit.Q.M + ":" + hit.Q.EP.Kind)
 			if mustFail(c, o, *hit) && res.Err == nil {
 				run.OracleFail(id, "corruption-accepted", fmt.Sprintf("op %d (%s): response to %s corrupted in %s, call returned %s", i, o.Kind,
 					fr.ShowReq(hit.Q), c.Cor.Field, res.Str), replayOf(line))
@@ -1519,6 +1519,120 @@ func genCase(r *common.Rand, nops int) *Case {
 	return c
 }
 
+// ---------- exhaustive single-field corruption: every (operation, exchange, field) ----------
+
+type corVariant struct{ Field, Arg string }
+
+func corVariants(c *Case) []corVariant {
+	return []corVariant{{"dig-other", sha([]byte("other0"))}, {"dig-other", c.Pool[len(c.Pool)-1].Digest}, {"dig-garbage", ""}, {"dig-drop", ""},
+		{"len-inc", ""}, {"len-drop", ""}, {"type-other", ""}, {"type-garbage", ""}, {"type-drop", ""}, {"status", "500"}, {"status", "204"}, {"loc-drop", ""}}
+}
+
+// canonicalCase: one history that exercises every operation and every request shape.
+func canonicalCase(prof fr.Profile, rst int, plain bool) *Case {
+	c := &Case{Main: "app/web", Other: "lib/base", Prof: prof, Rst: rst, Plain: plain}
+	add := func(b []byte, subj *fr.Desc) int {
+		sj := "-"
+		if subj != nil {
+			sj = fmt.Sprintf("%s/%s/%d", common.Hex(subj.MT), common.Hex(subj.DG), subj.SZ)
+		}
+		if !json.Valid(b) {
+			sj = "N"
+		}
+		c.Pool = append(c.Pool, PoolItem{Bytes: b, Digest: sha(b), Subj: sj, subj: subj})
+		return len(c.Pool) - 1
+	}
+	desc := func(i int, mt string) fr.Desc { return fr.Desc{MT: mt, DG: c.Pool[i].Digest, SZ: int64(len(c.Pool[i].Bytes))} }
+	m0 := add([]byte(`{"schemaVersion":2,"n":0}`), nil)
+	m0d := desc(m0, mtOCIManifest)
+	withSubject := prof.Referrers && rst != 2
+	var m1 int
+	if withSubject {
+		b, _ := json.Marshal(map[string]any{"schemaVersion": 2, "subject": map[string]any{"mediaType": m0d.MT, "digest": m0d.DG, "size": m0d.SZ}})
+		m1 = add(b, &m0d)
+	}
+	m2 := add([]byte(`{"schemaVersion":2,"n":2}`), nil)
+	b0 := add([]byte{0x80, 1, 2, 3}, nil)
+	b1 := add([]byte{0x81, 9, 8}, nil)
+	b2 := add([]byte{0x82}, nil)
+	c.OtherIdx = []int{b1, b2}
+	op := func(k string, d fr.Desc, ci int, s string) { c.Ops = append(c.Ops, Op{Kind: k, D: d, CI: ci, S: s}) }
+	op("push", desc(b0, mtLayer), b0, "")
+	op("push", m0d, m0, "")
+	op("pushref", desc(m2, mtDockerManifest), m2, "v1")
+	op("fetch", desc(b0, mtLayer), -1, "")
+	op("fetch", m0d, -1, "")
+	op("exists", desc(b0, mtLayer), -1, "")
+	op("exists", m0d, -1, "")
+	op("resolve", fr.Desc{}, -1, "v1")
+	op("resolve", fr.Desc{}, -1, m0d.DG)
+	op("fetchref", fr.Desc{}, -1, "v1")
+	op("fetchref", fr.Desc{}, -1, m0d.DG)
+	op("bresolve", fr.Desc{}, -1, c.Pool[b0].Digest)
+	op("bfetchref", fr.Desc{}, -1, c.Pool[b0].Digest)
+	op("tag", m0d, -1, "v2")
+	op("mount", desc(b1, mtLayer), -1, "")
+	op("mount", desc(b2, mtLayer), b2, "")
+	if withSubject {
+		op("push", desc(m1, mtOCIManifest), m1, "")
+		op("preds", m0d, -1, "")
+		op("delete", desc(m1, mtOCIManifest), -1, "")
+	}
+	op("delete", m0d, -1, "")
+	op("delete", desc(m2, mtDockerManifest), -1, "")
+	op("delete", desc(b0, mtLayer), -1, "")
+	return c
+}
+
+func allProfiles() []fr.Profile {
+	var ps []fr.Profile
+	for i := 0; i < 32; i++ {
+		ps = append(ps, fr.Profile{DigHdr: i&1 != 0, Range: i&2 != 0, CLen: i&4 != 0, Mount: i&8 != 0, Referrers: i&16 != 0})
+	}
+	return ps
+}
+
+// enumerateCorruptions runs the canonical history once per profile and then once for every
+// exchange x every corruption variant: no sampling.
+func enumerateCorruptions() {
+	profiles := allProfiles()
+	if !run.Thorough() {
+		profiles = []fr.Profile{profiles[31], profiles[0], profiles[21], profiles[10], profiles[20]}
+	}
+	runs, hist := 0, 0
+	before := map[string]int{}
+	for k, v := range run.Dist {
+		before[k] = v
+	}
+	for _, p := range profiles {
+		for _, rst := range []int{0, 1} {
+			if rst == 1 && !run.Thorough() {
+				continue
+			}
+			c := canonicalCase(p, rst, hist%2 == 0)
+			n := execHistory(run.NewID(), c)
+			hist++
+			for k := 0; k < n; k++ {
+				for _, v := range corVariants(c) {
+					cc := *c
+					cc.Cor = &fr.Corruption{K: k, Field: v.Field, Arg: v.Arg}
+					execHistory(run.NewID(), &cc)
+					runs++
+				}
+			}
+		}
+	}
+	pairs := 0
+	for k, v := range run.Dist {
+		if strings.HasPrefix(k, "corrupt:") && v > before[k] {
+			pairs++
+		}
+	}
+	run.Extra["corruption_enumeration"] = map[string]any{"exhaustive": true, "profiles": len(profiles), "histories": hist, "corrupted_runs": runs,
+		"variants_per_exchange": 12, "distinct_field_op_method_endpoint": pairs,
+		"what": "canonical history with every operation and request shape; every exchange of it x every single-field corruption variant, per capability profile (thorough: all 32 profiles x referrers state unknown/supported)"}
+}
+
 var corruptFields = []string{"dig-other", "dig-garbage", "dig-drop", "len-inc", "len-drop", "type-other", "type-garbage",
 	"type-drop", "status", "status", "loc-drop"}
 
@@ -1621,6 +1735,7 @@ func main() {
 	for i := 0; i < ns; i++ {
 		execSeek(run.NewID(), genSeek(r.Fork()))
 	}
+	enumerateCorruptions()
 	nl := run.Scale(1500, 40000)
 	for i := 0; i < nl; i++ {
 		execLoc(run.NewID(), genLoc(r.Fork()))
